@@ -26,10 +26,27 @@
 (*   D_display_root_dot  fmt::Display of a record / of a name inside record *)
 (*                       data writes "<name>." and Name's Display of the    *)
 (*                       root is already ".": the root comes out as ".."    *)
+(*                                                                          *)
+(* Restricted-alphabet token fields (section "Field kinds" below): record   *)
+(* types whose presentation form has tokens with an alphabet / validation   *)
+(* of their own -- the CAA tag, plain integers (impl_scan_unsigned!), the    *)
+(* IANA integers read through str::parse, type mnemonics in bitmaps, the     *)
+(* NSEC3 salt, hex data.  FieldAlphabet / Admitted(kind, v) say what the     *)
+(* CONSTRUCTORS and the wire parser admit, FieldWrite / FieldRead are the    *)
+(* writer and the reader of the token; the law FieldRead o FieldWrite = id   *)
+(* ranges over everything admitted, and the carriers (CAA, NSEC, TLSA,       *)
+(* NSEC3PARAM records: rd shapes [t |-> 257, fl, tag, val], [t |-> 47, name, *)
+(* types], [t |-> 52, u, s, m, data], [t |-> 51, alg, fl, it, salt]) take    *)
+(* the fields through the whole-record law.                                  *)
+(*   D_caa_empty_tag     CaaTag::check_slice (all constructors, the wire     *)
+(*                       parser) admits the empty tag (RFC 8659 4.1: at      *)
+(*                       least one character); it is written as nothing and  *)
+(*                       the value is then read as the tag                   *)
 (***************************************************************************)
 EXTENDS ZoneFile
 
 WriterDevs == {"D_label_escape_set", "D_display_root_dot"}
+FieldDevs == {"D_caa_empty_tag"}      \* constructor side: what is admitted
 \* the token route's reader (base::scan::IterScanner):
 \*   D_iterscanner_marker  IterScanner::scan_opt_unknown_marker only peeks at the
 \*                         "\#" token and leaves it in place; ZoneRecordData::scan
@@ -89,11 +106,89 @@ HexByte(b) == LET h(v) == IF v < 10 THEN 48 + v ELSE 87 + v IN <<h(b \div 16), h
 \* RFC 3597: \# <length> <two hex digits per octet>
 GenericWords(data) == <<<<BSL, HASH>>, DecDigits(Len(data))>> \o [i \in 1..Len(data) |-> HexByte(data[i])]
 
+\* ======================================================================
+\* Field kinds: tokens with an alphabet / a validation of their own.
+\* A value is an octet sequence (text kinds) or a number (numeric kinds).
+UpperAZ == 65..90    LowerAZ == 97..122    Digits09 == 48..57
+FieldKinds == {"caa_tag", "u8", "u16", "str8", "rtype", "salt", "hex"}
+\* text kinds: the octets a value may consist of (CaaTag::check_slice:
+\* is_ascii_alphanumeric; salt / hex data: any octet) ...
+FieldAlphabet(k) ==
+  CASE k = "caa_tag" -> UpperAZ \cup LowerAZ \cup Digits09
+    [] k \in {"salt", "hex"} -> 0..255
+\* ... its boundary characters and the characters just outside ('@' '[' '`'
+\* '{' '/' ':' and '-', which RFC 8659 mentions for future tags)
+FieldBoundary(k) == CASE k = "caa_tag" -> {65, 90, 97, 122, 48, 57}
+FieldOutside(k)  == CASE k = "caa_tag" -> {64, 91, 96, 123, 47, 58, 45}
+\* numeric kinds: u8 / u16 scanned digit by digit (impl_scan_unsigned!),
+\* str8 the IANA integers read by str::parse, rtype a type mnemonic or TYPEnnn
+FieldMax(k) == CASE k \in {"u8", "str8"} -> 255 [] k \in {"u16", "rtype"} -> 65535
+
+\* what the constructors and the wire parser admit (dv: FieldDevs in force)
+Admitted(k, v, dv) ==
+  CASE k = "caa_tag" -> /\ Len(v) <= 255 /\ \A i \in 1..Len(v) : v[i] \in FieldAlphabet(k)
+                        /\ (Len(v) >= 1 \/ "D_caa_empty_tag" \in dv)
+    [] k \in {"u8", "u16", "str8", "rtype"} -> v \in 0..FieldMax(k)
+    [] k = "salt" -> Len(v) <= 255 /\ \A i \in 1..Len(v) : v[i] \in FieldAlphabet(k)
+    [] k = "hex" -> Len(v) >= 1 /\ \A i \in 1..Len(v) : v[i] \in FieldAlphabet(k)
+
+HexOf(d) == Concat([i \in 1..Len(d) |-> HexByte(d[i])])
+\* the writer of the token
+FieldWrite(k, v) ==
+  CASE k = "caa_tag" -> v                                   \* Display for CaaTag: the octets as they are
+    [] k \in {"u8", "u16", "str8"} -> DecDigits(v)
+    [] k = "rtype" -> WType(v)
+    [] k = "salt" -> IF v = <<>> THEN <<45>> ELSE HexOf(v)   \* RFC 5155 3.3: "-"
+    [] k = "hex" -> HexOf(v)
+\* the reader of the token (a token item of ZoneFile.tla): [r |-> "ok", v |-> value] or an error
+FieldRead(k, tok) ==
+  CASE k = "caa_tag" ->     \* CaaTag::scan: CharStr::scan, then check_slice
+         LET c == ScanCharStr(tok, {}) IN
+         IF c.r # "ok" THEN c
+         ELSE IF \E i \in 2..Len(c.o) : c.o[i] \notin FieldAlphabet(k) THEN ErrR
+         ELSE [r |-> "ok", v |-> Tail(c.o)]
+    [] k = "u8" -> ScanU8(tok, {})
+    [] k = "u16" -> ScanU16(tok, {})
+    [] k = "str8" -> ScanU8Str(tok)
+    [] k = "rtype" -> LET a == ScanAscii(tok) IN IF a.r # "ok" THEN ErrR ELSE RtypeOf(a.s)
+    [] k = "salt" -> LET x == SaltOf(tok) IN IF x.r # "ok" THEN x ELSE [r |-> "ok", v |-> x.o]
+    [] k = "hex" -> LET x == HexDecode(tok.syms) IN IF x.r # "ok" THEN x ELSE [r |-> "ok", v |-> x.o]
+FieldWire(k, v) ==
+  CASE k = "caa_tag" -> <<Len(v)>> \o v
+    [] k \in {"u8", "str8"} -> <<v>>
+    [] k \in {"u16", "rtype"} -> EncU16(v)
+    [] k = "salt" -> <<Len(v)>> \o v
+    [] k = "hex" -> v
+\* a bare token as the tokenizer hands it on (no escapes in these alphabets)
+PlainTok(t, q) == [k |-> "tok", q |-> q, sp |-> TRUE, syms |-> t, p0 |-> 0, nx |-> SP]
+\* the law, for one field
+FieldRoundTrip(k, v) == FieldRead(k, PlainTok(FieldWrite(k, v), FALSE)) = [r |-> "ok", v |-> v]
+
+RECURSIVE SortedSeq(_)
+SortedSeq(S) == IF S = {} THEN <<>> ELSE LET m == CHOOSE x \in S : \A y \in S : x <= y IN <<m>> \o SortedSeq(S \ {m})
+FieldTypes == {257, 47, 52, 51}
+\* the fields of a carrier record, in writing order: <<kind, value>>
+FieldsOf(rd) ==
+  IF rd.t = 257 THEN << <<"u8", rd.fl>>, <<"caa_tag", rd.tag>> >>
+  ELSE IF rd.t = 47 THEN LET ts == SortedSeq(rd.types) IN [i \in 1..Len(ts) |-> <<"rtype", ts[i]>>]
+  ELSE IF rd.t = 52 THEN << <<"str8", rd.u>>, <<"str8", rd.s>>, <<"str8", rd.m>>, <<"hex", rd.data>> >>
+  ELSE IF rd.t = 51 THEN << <<"str8", rd.alg>>, <<"u8", rd.fl>>, <<"u16", rd.it>>, <<"salt", rd.salt>> >>
+  ELSE <<>>
+AllAdmitted(rd, dv) == \A i \in 1..Len(FieldsOf(rd)) : Admitted(FieldsOf(rd)[i][1], FieldsOf(rd)[i][2], dv)
+
 WRdata(rd, kind, dv) ==
   IF rd.t = 16 THEN <<Open>> \o [i \in 1..Len(rd.strs) |-> Tok(WQuoted(rd.strs[i]))] \o <<Close>>
   ELSE IF rd.t = 13 THEN <<Open, Tok(WQuoted(rd.cpu)), Cmt(<<99, 112, 117>>), Tok(WQuoted(rd.os)), Cmt(<<111, 115>>), Close>>
   ELSE IF rd.t \in NameTypes THEN <<Tok(WName(rd.name, kind, dv))>>
   ELSE IF rd.t = 15 THEN <<Open, Tok(DecDigits(rd.pref)), Cmt(<<112, 114, 101, 102>>), Tok(WName(rd.name, kind, dv)), Close>>
+  ELSE IF rd.t = 257 THEN <<Open, Tok(FieldWrite("u8", rd.fl)), Cmt(<<102, 108>>), Tok(FieldWrite("caa_tag", rd.tag)), Cmt(<<116, 97, 103>>),
+                            Tok(WQuoted(rd.val)), Cmt(<<118, 97, 108>>), Close>>
+  ELSE IF rd.t = 47 THEN LET ts == SortedSeq(rd.types) IN
+         <<Open, Tok(WName(rd.name, kind, dv))>> \o [i \in 1..Len(ts) |-> Tok(FieldWrite("rtype", ts[i]))] \o <<Close>>
+  ELSE IF rd.t = 52 THEN <<Open, Tok(FieldWrite("str8", rd.u)), Tok(FieldWrite("str8", rd.s)), Tok(FieldWrite("str8", rd.m)),
+                           Tok(FieldWrite("hex", rd.data)), Close>>
+  ELSE IF rd.t = 51 THEN <<Open, Tok(FieldWrite("str8", rd.alg)), Tok(FieldWrite("u8", rd.fl)), Cmt(<<102, 108>>),
+                           Tok(FieldWrite("u16", rd.it)), Cmt(<<105, 116>>), Tok(FieldWrite("salt", rd.salt)), Close>>
   ELSE <<Tok(JoinWith(GenericWords(rd.data), <<SP>>))>>     \* one token with spaces inside
 
 Write(r, kind, dv) ==
@@ -138,6 +233,10 @@ RdWire(rd) ==
   ELSE IF rd.t = 13 THEN CS(rd.cpu) \o CS(rd.os)
   ELSE IF rd.t \in NameTypes THEN WireName(rd.name)
   ELSE IF rd.t = 15 THEN EncU16(rd.pref) \o WireName(rd.name)
+  ELSE IF rd.t = 257 THEN FieldWire("u8", rd.fl) \o FieldWire("caa_tag", rd.tag) \o rd.val
+  ELSE IF rd.t = 47 THEN WireName(rd.name) \o WindowsFrom(rd.types, 0)
+  ELSE IF rd.t = 52 THEN <<rd.u, rd.s, rd.m>> \o rd.data
+  ELSE IF rd.t = 51 THEN <<rd.alg, rd.fl>> \o EncU16(rd.it) \o FieldWire("salt", rd.salt)
   ELSE rd.data
 AsEntry(r) == [owner |-> WireName(r.owner), class |-> r.class, ttl |-> r.ttl,
                rtype |-> r.rd.t, rdata |-> RdWire(r.rd)]
@@ -147,8 +246,55 @@ Expected(r) == [entries |-> <<AsEntry(r)>>, err |-> FALSE]
 \* (the class is always written), origin as given (names are written absolute)
 ReadBack(text, origin, rdv) == ReadAll(text, origin, -1, rdv)
 
+
+\* --- CAA, which the reader of ZoneFile.tla abstains on: Caa::scan is
+\* CaaFlags (u8::scan), CaaTag::scan, Scanner::scan_octets (one token, any
+\* length), and the entry must end there
+ScanOctetsTok(tok) ==
+  IF \E i \in 1..Len(tok.syms) : ~OctetOk(tok.syms[i]) THEN ErrR
+  ELSE [r |-> "ok", o |-> [i \in 1..Len(tok.syms) |-> SymOct(tok.syms[i])]]
+RdCaa(toks, i, mode) ==
+  IF i + 2 > Len(toks) THEN ErrR
+  ELSE LET f == FieldRead("u8", toks[i])  t == FieldRead("caa_tag", toks[i + 1])  v == ScanOctetsTok(toks[i + 2]) IN
+    IF f.r # "ok" THEN ErrR ELSE IF t.r # "ok" THEN ErrR ELSE IF v.r # "ok" THEN ErrR
+    ELSE IF mode # "lf" \/ i + 2 < Len(toks) THEN ErrR
+    ELSE RdOk(FieldWire("u8", f.v) \o FieldWire("caa_tag", t.v) \o v.o)
+XTypes == {257}
+RdataX(rtype, toks, i, mode, origin, dv) ==
+  IF rtype \in XTypes /\ ~(i <= Len(toks) /\ IsMarker(toks[i])) THEN RdCaa(toks, i, mode)
+  ELSE Rdata(rtype, toks, i, mode, origin, dv)
+\* one line holding one record, through the tokenizer of ZoneFile.tla, scan_name,
+\* scan_ctr and RdataX; Unmodelled unless the line is of that shape and of an XType
+RECURSIVE TokAllFrom(_, _, _, _)
+TokAllFrom(tk, text, i, acc) ==
+  IF i > Len(text) THEN [tk |-> tk, items |-> acc]
+  ELSE LET s == TkStep(tk, text[i]) IN TokAllFrom(s.tk, text, i + 1, acc \o s.items)
+ErrOutcome == [entries |-> <<>>, err |-> TRUE]
+ReadLineX(text, origin) ==
+  LET t == TokAllFrom(TkInit, text, 1, <<>>)
+      n == Len(t.items) IN
+  IF t.tk.err \/ TkEofIsError(t.tk) THEN Unmodelled
+  ELSE IF n < 3 \/ t.items[n].k # "lf" \/ (\E j \in 1..(n - 1) : t.items[j].k # "tok") THEN Unmodelled
+  ELSE IF text[1] \in {SP, TAB, DOLLAR} \/ t.items[1].syms = <<AT>> THEN Unmodelled
+  ELSE LET toks == SubSeq(t.items, 1, n - 1)
+           c == Ctr(toks, 2) IN
+    IF c.r # "ok" THEN Unmodelled
+    ELSE IF c.rtype \notin XTypes \/ c.class = -1 \/ c.ttl = -1 THEN Unmodelled
+    ELSE LET o == ScanName(toks[1], origin, {})
+             rd == RdataX(c.rtype, toks, c.next, "lf", origin, {}) IN
+      IF o.r = "unmod" THEN Unmodelled
+      ELSE IF o.r # "ok" \/ rd.r # "ok" THEN ErrOutcome
+      ELSE [entries |-> <<[owner |-> o.n, class |-> c.class, ttl |-> c.ttl, rtype |-> c.rtype, rdata |-> rd.rd]>>, err |-> FALSE]
+\* the reader of ZoneFile.tla, and where it abstains the line reader above
+ReadBackX(text, origin, rdv) ==
+  LET o == ReadBack(text, origin, rdv) IN IF o = Unmodelled THEN ReadLineX(text, origin) ELSE o
+
 \* the property, for one record, one kind, one origin
-RoundTrip(r, kind, origin, dv) == ReadBack(WText(r, kind, dv), origin, {}) = Expected(r)
+RoundTrip(r, kind, origin, dv) == ReadBackX(WText(r, kind, dv), origin, {}) = Expected(r)
+\* ... and for the fields of a carrier record on their own
+FieldsRoundTrip(rd, dv) ==
+  \A i \in 1..Len(FieldsOf(rd)) :
+     Admitted(FieldsOf(rd)[i][1], FieldsOf(rd)[i][2], dv) => FieldRoundTrip(FieldsOf(rd)[i][1], FieldsOf(rd)[i][2])
 \* ======================================================================
 \* Zones: several records in one file, read by a *configured* reader.
 \* The reader is a state machine across entries (remembered class, last
@@ -219,6 +365,11 @@ RdTokens(rd, kind, dv) ==
   ELSE IF rd.t = 13 THEN <<q(QInner(rd.cpu)), q(QInner(rd.os))>>
   ELSE IF rd.t \in NameTypes THEN <<u(WName(rd.name, kind, dv))>>
   ELSE IF rd.t = 15 THEN <<u(DecDigits(rd.pref)), u(WName(rd.name, kind, dv))>>
+  ELSE IF rd.t = 257 THEN <<u(FieldWrite("u8", rd.fl)), u(FieldWrite("caa_tag", rd.tag)), q(QInner(rd.val))>>
+  ELSE IF rd.t = 47 THEN LET ts == SortedSeq(rd.types) IN
+         <<u(WName(rd.name, kind, dv))>> \o [i \in 1..Len(ts) |-> u(FieldWrite("rtype", ts[i]))]
+  ELSE IF rd.t = 52 THEN <<u(FieldWrite("str8", rd.u)), u(FieldWrite("str8", rd.s)), u(FieldWrite("str8", rd.m)), u(FieldWrite("hex", rd.data))>>
+  ELSE IF rd.t = 51 THEN <<u(FieldWrite("str8", rd.alg)), u(FieldWrite("u8", rd.fl)), u(FieldWrite("u16", rd.it)), u(FieldWrite("salt", rd.salt))>>
   ELSE LET w == GenericWords(rd.data) IN [i \in 1..Len(w) |-> u(w[i])]
 
 \* reading them: the record-data scanners of ZoneFile.tla on the symbols
@@ -228,7 +379,7 @@ ReadTokens(rtype, toks, dv) ==
       items == [i \in 1..Len(toks) |-> [k |-> "tok", q |-> toks[i].q, sp |-> TRUE, syms |-> sy[i].syms, p0 |-> 0, nx |-> SP]]
   IN IF \E i \in 1..Len(toks) : ~sy[i].ok THEN [err |-> TRUE]
      ELSE IF "D_iterscanner_marker" \in dv /\ Len(items) >= 1 /\ IsMarker(items[1]) THEN [err |-> TRUE]
-     ELSE LET r == Rdata(rtype, items, 1, "lf", <<>>, {})
+     ELSE LET r == RdataX(rtype, items, 1, "lf", <<>>, {})
           IN IF r.r = "ok" THEN [rd |-> r.rd] ELSE [err |-> TRUE]
 TokenRoundTrip(r, kind, dv) ==
   ReadTokens(r.rd.t, RdTokens(r.rd, kind, dv \cap WriterDevs), dv \cap TokenDevs) = [rd |-> RdWire(r.rd)]
